@@ -359,6 +359,7 @@ BW_LISTS = [[0.1, 0.5, 0.02, 1.0, 0.3, 0.3], [0.25, 0.5, 1e-3], [1.0, 0.7, 0.05,
 
 
 def run_streams(case):
+  case = list(case) + ["stream"] * (5 - len(case))        # (artefacts older than the container kinds have four fields)
   fam, name, vi, which, ck = case
   if ck in ("hub1", "hub-shared"):
     del _SHARED[:]
@@ -409,6 +410,7 @@ def _kwcall(design, kw, names, vals):
 
 
 def run_streams_inner(case, kw=False):
+  case = list(case) + ["stream"] * (5 - len(case))
   fam, name, vi, which, ck = case
   fs, bs = PARAM_LISTS[vi], BW_LISTS[vi]
   n = len(fs)
